@@ -53,7 +53,7 @@ FUN = CheckFn("c08-fun", "Model.FloatOps", "float_unop_check", Tup(Nat, F64, F64
 
 ASSUMPTIONS = [
     "dtype float64 only (the PrimFloat model is binary64); float32 carriers are not exercised",
-    "LogSemiring is judged in the exp reading: e^x for a log-space float x is supplied as a rational with >= 45 significant digits of e^x and of e^x - 1 (Python decimal), the result r as the interval [e^(r-t), e^(r+t)], t = 8 * 2^-52 * (|x|+|y|+|r|) per operation; log-space magnitudes above 745 are exercised only through mul (bit-exact)",
+    "LogSemiring is judged in the exp reading: e^x for a log-space float x is supplied as a rational with >= 45 significant digits of e^x and of e^x - 1 (Python decimal), the result r as the interval [e^(r-t), e^(r+t)], t = 8 * 2^-52 * (|x|+|y|+|r|) per operation (star: 8 * 2^-52 * |r|); log-space magnitudes above 745 are exercised only through mul (bit-exact)",
     "tolerance policy of Model/SemiringCheck.v (accept_q): equality whenever the exact result is a binary64 number, else 1e-12 relative or 2^-1074 absolute; +-inf accepted iff the exact value reaches the binary64 overflow threshold; law instances whose exact intermediate values leave the normal range are skipped (class 2)",
     "torch.maximum on the pair {+0., -0.} returns either zero depending on the kernel (scalar vs vectorised); maximum results are compared modulo the sign of zero",
     "the summation order of torch.sum / logsumexp is not modelled; sums are judged against the exact sum within (n+1) * 1e-12",
@@ -87,6 +87,7 @@ VIT_GRID = [-INF, -1e308, -3.0, -2.0, -1 - U, -1.0, -5e-324, 0.0, 5e-324, 2.0 **
 LOG_GRID = [-INF, -744.0, -50.0, -3.0, -1 - U, -1.0, math.log(0.5), -(2.0 ** -30), -5e-324, 0.0,
             2.0 ** -30, math.log(2), math.log(3), 1.0, 3.0, 50.0, 700.0, INF]
 LOG_BIG = [-1e308, 1e308]            # mul only
+LOG_STAR_EXTRA = [-1e-300, -1e-17, -2.0 ** -53, -1e-10, -30.0, -36.0, -37.5, -40.0, -100.0, -700.0]   # star only: both ends of the two numerically motivated branches
 REAL_TRI = [0.0, 5e-324, 0.5, 1 - 2.0 ** -53, 1.0, 1 + U, 2.0, 1e308, INF]
 VIT_TRI = [-INF, -1e308, -1.0, -5e-324, 0.0, 5e-324, 1 + U, 3.0, 1e308, INF]
 LOG_TRI = [-INF, -1.0, math.log(0.5), 0.0, math.log(2), 1.0, INF]
@@ -150,7 +151,6 @@ def log_result(r, *inputs, k=8):
 def in_log_range(x):
     return abs(x) == INF or abs(x) <= 745.0
 
-F21_KEY = "log_sub_patterned_exp_of_default_difference_ge_1"
 SRNAME = {0: "RealSemiring", 1: "LogSemiring", 2: "ViterbiSemiring", 3: "BoolSemiring"}
 OPNAME = {0: "add", 1: "mul", 2: "sub"}
 LAWNAME = {0: "add associative", 1: "add commutative", 2: "add identity", 3: "mul associative", 4: "mul commutative",
@@ -384,7 +384,7 @@ def part_tables(ctx, SR):
 def part_unary(ctx, SR):
     import torch
     fvals, finfo, svals, sinfo, lvals, linfo = [], [], [], [], [], []
-    for sr, grid in ((0, REAL_GRID + [-0.0]), (2, VIT_GRID + [-0.0]), (1, LOG_GRID)):
+    for sr, grid in ((0, REAL_GRID + [-0.0]), (2, VIT_GRID + [-0.0]), (1, LOG_GRID + LOG_STAR_EXTRA)):
         S = SR[sr]
         try:
             R1 = S.star(_t(grid)).tolist()
@@ -405,18 +405,17 @@ def part_unary(ctx, SR):
                     fvals.append((sr // 2, x, rv)); finfo.append(info)
                     svals.append((sr, wire(x), wire(rv))); sinfo.append(info)
                 else:
-                    lvals.append((3, [log_wire(x)], log_result(rv, x))); linfo.append(info)
+                    lvals.append((3, [log_wire(x)], log_result(rv))); linfo.append(info)
     def d_fun(info, c):
         return Violation("%s.star(%r) is %r: differs bitwise from the binary64 model" % (SRNAME[info["sr"]], info["x"], info["r"]),
                          case=dict(kind="fun", **info), observed=info["r"], corr="corr:float_unop_check (L0')", failing_input_found=False)
     _judge_kernel(ctx, FUN, fvals, finfo, d_fun, "c08-fun")
     def d_star(info, c):
-        key = None
         if c < 10:
             return Violation("%s.star(%r) is %r: not the least solution of y = 1 + x*y" % (SRNAME[info["sr"]], info["x"], info["r"]),
                              case=dict(kind="star", **info), observed=info["r"], expected="least solution (carrier star)",
                              oracle="carrier star = least solution (C08_star_least_solution)", corr="C08_star_check_sound_*",
-                             call="%s.star" % SRNAME[info["sr"]], finding_key=key)
+                             call="%s.star" % SRNAME[info["sr"]])
         return Violation("%s.star(%r) is %r: differs from the model of the code (code %d)" % (SRNAME[info["sr"]], info["x"], info["r"], c),
                          case=dict(kind="star", **info), observed=info["r"], corr="corr:c08_star_check", failing_input_found=False)
     _judge(ctx, STAR, svals, sinfo, d_star, "c08-star")
@@ -533,14 +532,13 @@ def part_laws(ctx, SR):
                 ctx.nontrivial.add(("law", info["sr"], info["law"], fbits(info["x"]), fbits(info["y"]), fbits(info["z"])))
     def d_law(info, c):
         starlaw = info["law"] in (9, 12)
-        key = None
         what = "%s: law '%s' at x=%r y=%r z=%r: lhs=%r rhs=%r" % (SRNAME[info["sr"]], LAWNAME[info["law"]], info["x"], info["y"], info["z"], info["lhs"], info["rhs"])
         if c < 10:
             return Violation(what + (": lhs" if c == 1 else ": rhs") + " is not the value the law prescribes", case=dict(kind="law", **info),
                              observed=dict(lhs=info["lhs"], rhs=info["rhs"]), oracle="law_table (C08_law_oracle_sound_*)",
-                             corr="C08_laws_exact", call="law instance on the implementation", finding_key=key)
+                             corr="C08_laws_exact", call="law instance on the implementation")
         return Violation(what + ": differs from the model of the code (code %d)" % c, case=dict(kind="law", **info),
-                         corr="corr:c08_law_check", failing_input_found=False, finding_key=key)
+                         corr="corr:c08_law_check", failing_input_found=False)
     _judge(ctx, LAW, lawvals, lawinfo, d_law, "c08-law", chunk=1000, post=post_classes, mod=100)
     # Log laws, exp reading
     S = SR[1]
@@ -689,17 +687,10 @@ def part_pt(ctx, SR, tables):
                                 got = _apply(S, op, px, py)
                                 got = got.to_dense() if isinstance(got, ind.PatternedTensor) else got
                             except Exception as e:
-                                # F21: LogSemiring.sub computes log1p/log/exp of the *defaults* with Python's math
-                                # module, which raises where torch returns -inf/nan: whenever y.default - x.default >= 0
-                                key = None
-                                if sr == 1 and op == 2 and isinstance(e, (ValueError, OverflowError)) and isinstance(dx, float) and isinstance(dy, float):
-                                    dd = dy - dx
-                                    # exp(dd) evaluates to >= 1 in binary64 (dd >= 0, or 0 > dd > -2^-54), or overflows
-                                    if dd == dd and (dd >= 0 or math.exp(dd) >= 1.0): key = F21_KEY
                                 ctx.viol.append(Violation("%s.%s on PatternedTensors (%s default %r, %s default %r) raised %r; on the dense tensors it does not raise"
                                                           % (SRNAME[sr], OPNAME[op], nx, dx, ny, dy, e),
                                                           case=case, observed=repr(e), oracle="dense result", corr="C08 representation independence",
-                                                          call="%s.%s(PatternedTensor, PatternedTensor)" % (SRNAME[sr], OPNAME[op]), finding_key=key))
+                                                          call="%s.%s(PatternedTensor, PatternedTensor)" % (SRNAME[sr], OPNAME[op])))
                                 continue
                             ctx.nontrivial.add(("pt", sr, op, nx, ny, dx, dy, sh))
                             if tuple(got.shape) != tuple(want.shape):
@@ -733,11 +724,10 @@ def part_pt(ctx, SR, tables):
                                 i, why = bad
                                 gv = struct.unpack("<d", struct.pack("<q", got_b[i]))[0]; wv = struct.unpack("<d", struct.pack("<q", want_b[i]))[0]
                                 xv = struct.unpack("<d", struct.pack("<q", xb[i]))[0]; yv = struct.unpack("<d", struct.pack("<q", yb[i]))[0]
-                                key = None
                                 ctx.viol.append(Violation("%s.%s on PatternedTensors (%s default %r, %s default %r): element %d is %r, the dense tensors give %r (operands %r, %r)%s"
                                                           % (SRNAME[sr], OPNAME[op], nx, dx, ny, dy, i, gv, wv, xv, yv, "" if why == "dense" else " -- not a judged scalar result"),
                                                           case=dict(case, x=xv, y=yv), observed=gv, expected=wv, oracle="dense result, bit pattern modulo the sign of zero",
-                                                          corr="C08 representation independence", call="%s.%s(PatternedTensor, PatternedTensor)" % (SRNAME[sr], OPNAME[op]), finding_key=key))
+                                                          corr="C08 representation independence", call="%s.%s(PatternedTensor, PatternedTensor)" % (SRNAME[sr], OPNAME[op])))
         # from_int / eye on PatternedTensors
         try:
             for nI in (0, 1, 2, 3):
@@ -805,9 +795,10 @@ def run(tier, seed):
                                       dict(kind="law", law=LAWNAME[7], sr="RealSemiring", x=INF, y=0.0, z=0.0,
                                            impl=[float(t) for t in law_eval(SR[0], 7, _t0(INF), _t0(0.0), _t0(0.0))])],
                kernel_reevaluated=ctx.kernel, timings_s=timings,
-               known_finding_predicates={F21_KEY: "LogSemiring.sub(x, y) on PatternedTensors raises ValueError/OverflowError and exp(y.default - x.default) >= 1 in binary64, i.e. y.default - x.default >= -2^-54 (Python math functions applied to the defaults)"},
+               known_finding_predicates={},
                repaired_findings={"F1": "362cf81 PatternedTensor.nan_to_num_ passes neginf (was: Log/Viterbi mul/sub on PatternedTensors gave -float_max for -inf)",
-                                  "F2": "d2ec7af ViterbiSemiring.star(0) is 0 (was: where(x >= 0, inf, 0.))"},
+                                  "F2": "d2ec7af ViterbiSemiring.star(0) is 0 (was: where(x >= 0, inf, 0.))",
+                                  "F21": "ad94aa4 PatternedTensor.exp/expm1/log/log1p treat the default like torch treats an element (was: LogSemiring.sub on PatternedTensors raised whenever exp(y.default - x.default) >= 1)"},
                open_items=["tier B (needs the rounding specification): x*1 = x, monotonicity of mul on [0,inf] on binary64 -- not claimed",
                            "float32 carriers are not exercised",
                            "LogSemiring add/sub/star/sum are judged within a tolerance in the exp reading, not bit-exactly (transcendental functions)",
@@ -853,7 +844,7 @@ def replay(path):
             val = (op, [log_wire(x), log_wire(y)], log_result(rv, x, y)); name = "LogSemiring.%s(%r, %r)" % (OPNAME[op], x, y)
         else:
             rv = float(SR[1].star(_t0(x)))
-            val = (3, [log_wire(x)], log_result(rv, x)); name = "LogSemiring.star(%r)" % x
+            val = (3, [log_wire(x)], log_result(rv)); name = "LogSemiring.star(%r)" % x
         code = run_coq(LOG, [val], tag="replay")[0]
         print("%s = %r; verdict code %d (1 = outside the exp-reading interval of the carrier operation)" % (name, rv, code))
         return 1 if code else 0
